@@ -147,7 +147,7 @@ def run_check(prop, tier, seed, replay_path=None):
             if not ok_m:
                 raise InfraError("model modules do not build:\n" + "\n".join(first_errors(log_m, 30)))
             ok_p, log_p, t_build = lean.lake_build(["PsutilModel.Props.%s" % prop])
-            forbidden = lean.grep_forbidden(prop)
+            forbidden = lean.grep_forbidden(prop, getattr(mod, "LEAN_PREFIXES", None))
             names, axioms, bad_axioms, audit_out = ([], {}, {}, "")
             if ok_p:
                 names, axioms, bad_axioms, audit_out = lean.audit(prop)
